@@ -218,25 +218,28 @@ def rule_V2(ctx: Ctx) -> None:
         ctx.unknown(f, {"loops": len(loops)}, exp)
         return
     lp = loops[0]
-    st = X.U(lp.test)
+    subj = X.nonempty_subject(lp.test)
+    st = X.U(subj) if subj is not None else X.U(lp.test)
     pop = [s for s in lp.body if isinstance(s, (ast.Assign, ast.AnnAssign)) and X.U(s.value) == f"{st}.pop()"]
     cur = X.U(pop[0].targets[0] if isinstance(pop[0], ast.Assign) else pop[0].target) if pop else None
     vis_add = [s for s in lp.body if isinstance(s, ast.Expr) and isinstance(s.value, ast.Call) and X.U(s.value.func).endswith(".add") and cur and f"tuple({cur})" == X.U(s.value.args[0])]
     vname = X.U(vis_add[0].value.func)[:-4] if vis_add else None
-    nb = [s for s in lp.body if isinstance(s, (ast.Assign, ast.AnnAssign)) and X.U(s.value) == f"self.get_coord_neighbors({cur})"]
+    # expansion: a loop over self.get_coord_neighbors(cur) (directly or through a local) that pushes exactly the unvisited ones
+    nb = []
     push_ok = False
     for n in ast.walk(lp):
-        if isinstance(n, ast.For) and nb and X.U(n.iter) == X.U(nb[0].targets[0] if isinstance(nb[0], ast.Assign) else nb[0].target):
+        if isinstance(n, ast.For) and cur and X.same_expr_x(n.iter, f.node, f"self.get_coord_neighbors({cur})", keep=(cur,)):
+            nb.append(n)
             v = X.U(n.target)
-            for i in ast.walk(n):
-                if isinstance(i, ast.If) and X.U(i.test) == f"tuple({v}) not in {vname}" and any(X.U(s) == f"{st}.append({v})" for s in i.body):
-                    push_ok = True
+            if len(n.body) == 1 and isinstance(n.body[0], ast.If) and not n.body[0].orelse and X.U(n.body[0].test) == f"tuple({v}) not in {vname}" \
+                    and [X.U(s) for s in n.body[0].body] == [f"{st}.append({v})"]:
+                push_ok = True
     init = X.assignments_to(f.node, st)
     init_ok = len(init) == 1 and X.U(init[0]) == f"[{f.params()[1]}]"
     rets = X.returns_of(f.node)
-    ret_ok = len(rets) == 1 and vname is not None and vname in X.U(rets[0].value)
+    ret_ok = len(rets) == 1 and vname is not None and X.same_expr(rets[0].value, f"np.array(list({vname}))")
     ctx.judge(f, bool(pop) and bool(vis_add) and bool(nb) and push_ok and init_ok and ret_ok,
-              {"stack": st, "visited": vname, "expands_via": X.U(nb[0].value) if nb else None, "push_guard_ok": push_ok, "returns": X.U(rets[0].value) if rets else None}, exp,
+              {"stack": st, "visited": vname, "expands_via": X.U(nb[0].iter) if nb else None, "push_guard_ok": push_ok, "returns": X.U(rets[0].value) if rets else None}, exp,
               "the component misses reachable cells or includes unreachable ones")
 
 
